@@ -57,7 +57,7 @@ struct Scn {
 fn scenarios(thorough: bool) -> Vec<Scn> {
     let mut v = vec![];
     let caches: Vec<Option<usize>> = if thorough { vec![Some(1024), Some(64 << 10), Some(1 << 20), None] } else { vec![Some(1024), Some(64 << 10), Some(1 << 20)] };
-    let scales: Vec<usize> = if thorough { vec![1, 4, 16] } else { vec![1, 4] };
+    let scales: Vec<usize> = if thorough { vec![1, 4, 16, 48] } else { vec![1, 4] };
     for kind in ["cache_one_object", "cache_many_objects", "blocks_waiting", "fdt_ids_incomplete", "many_sessions", "error_list", "fdt_current", "object_packets_after_fdt_only_fti"] {
         for &cache in &caches {
             for &max_err in if thorough { &[0usize, 1, 16][..] } else { &[0usize, 16][..] } {
